@@ -96,7 +96,12 @@ func TestStubFramesAcceptedByPaho(t *testing.T) {
 				t.Fatalf("connect username differs: %x", frame)
 			}
 		case *packets.Subscribe:
-			if c.PacketID != a.PacketID || len(c.Subscriptions) != len(a.Filters) {
+			distinct := map[string]bool{}
+			for _, f := range a.Filters {
+				distinct[string(f.Name)] = true
+			}
+			// paho keeps subscriptions in a map keyed by topic: duplicates collapse
+			if c.PacketID != a.PacketID || len(c.Subscriptions) != len(distinct) {
 				t.Fatalf("subscribe differs: %x", frame)
 			}
 		case *packets.Unsubscribe:
@@ -133,7 +138,23 @@ func knownPahoRejection(a *ref.AP, frame []byte) bool {
 		// 3.14.2.2.1: "If the Remaining Length is less than 2, a value of 0 is
 		// used" for the property length - a DISCONNECT of remaining length 1
 		// is legal; paho insists on a property length byte (EOF).
-		return len(body) == 1
+		// ... and it also reports EOF for remaining length 0 (3.14.2.1 allows
+		// omitting reason code and property length).
+		return len(body) < 2
+	case ref.Auth:
+		return len(body) < 2 // 3.15.2.1: remaining length 0 is legal
+	case ref.Connect:
+		// paho v0.11.0 validates the WILL properties against the property set
+		// of CONNECT itself ("invalid Prop type 9 for packet 1"), although
+		// 3.1.3.2 defines will delay, payload format, message expiry, content
+		// type, response topic and correlation data as will properties.
+		if a.Will != nil {
+			for _, p := range a.Will.Props {
+				if p.ID != 0x26 {
+					return true
+				}
+			}
+		}
 	case ref.PubAck, ref.PubRec, ref.PubRel, ref.PubComp:
 		// 3.4.2.2.1: "If the Remaining Length is less than 4 there is no
 		// Property Length" - remaining length 3 is legal.
